@@ -183,7 +183,10 @@ func runC06(c *core.Ctx) {
 			r.Check(ok, rule, construct, pos, "segmentMeta.EndTime = Format(end) with the same end value that load receives: the boundary seen after a restart equals the live one")
 		}
 		// the persisted end is written before the segment is loaded
-		r.neverBefore(rule, f, call("iface:(pkg/fs.Writer).Write"), call(sc+".load"), nil)
+		// the segment's metadata is on disk — atomically and durably (tmp + fsync + rename + fsync dir) — before the
+		// segment is loaded / published; a plain in-place Write is not enough (a power cut leaves an empty or torn
+		// file and open() then discards the whole segment, durably flushed parts included)
+		r.neverBefore(rule, f, reaching(2, fsWriteAtomic), call(sc+".load"), nil)
 	}
 	if f := r.fn("c06.load-sorted", stPkg, "(*segmentController).load"); f != nil {
 		r.mustSeq("c06.load-sorted", f, exitOK(f), nil, NM{"lst = append", ssax.StoreTo(stPkg+".segmentController.lst", nil)}, call(sc+".sortLst"))
